@@ -561,6 +561,8 @@ def run(ctx):
 
     def r5():
         want = {RS + "start_transition": 1, RS + "get_or_create_state_with_attributes": 2}
+        # optional: an <invoke> may carry a document id of its own (it ties child sessions to their element, see C14 R14.9)
+        optional = {RS + "start_invoke": 1}
         got = {}
         sites = []
         for fn in reader_fns(F):
@@ -584,8 +586,9 @@ def run(ctx):
         for i, (fn, n) in enumerate(others):
             ctx.ob("R04.5", site_key(fn, "DOC_ID_COUNTER used other than fetch_add(1)", i), False, line_of(n), "counter touched by %s" % fn.path)
         for owner in sorted(set(want) | set(got)):
-            ctx.ob("R04.5", "%s|doc id draws" % owner, got.get(owner, 0) == want.get(owner, 0), F.fn(owner).where if F.has_fn(owner) else "",
-                   "%d fetch_add site(s), expected %d" % (got.get(owner, 0), want.get(owner, 0)))
+            okn = got.get(owner, 0) == want.get(owner, 0) or (owner in optional and got.get(owner, 0) in (0, optional[owner]))
+            ctx.ob("R04.5", "%s|doc id draws" % owner, okn, F.fn(owner).where if F.has_fn(owner) else "",
+                   "%d fetch_add site(s), expected %d%s" % (got.get(owner, 0), want.get(owner, 0), " (or %d: optional)" % optional[owner] if owner in optional else ""))
         kinds = {}
         for fn, c, i in sites:
             par = fn.parent(c)
@@ -598,7 +601,8 @@ def run(ctx):
                     par = dict(asg[0], r=c)
             stored = par is not None and par.get("k") == "assign" and par["r"] is c and is_field_of(par["l"], "doc_id")
             bty = peel(par["l"], NO_T).get("bty", "") if stored else ""
-            kind = "state" if owner_in_type(bty, "State") else ("transition" if owner_in_type(bty, "Transition") else "?")
+            kind = "state" if owner_in_type(bty, "State") else ("transition" if owner_in_type(bty, "Transition") else
+                                                                ("invoke" if owner_in_type(bty, "Invoke") else "?"))
             loops = hirq.enclosing_loops(fn, c)
             sa = structural_ancestors(fn, c)
             cond_ok = not sa
@@ -624,7 +628,9 @@ def run(ctx):
                    "stored in doc_id of a %s: %s; loops: %d; %s%s" % (kind, stored, len(loops), note, "" if fresh else "; receiver is not a fresh Transition::new()"))
         exp_kinds = {(RS + "start_transition", "transition"): 1, (RS + "get_or_create_state_with_attributes", "transition"): 1,
                      (RS + "get_or_create_state_with_attributes", "state"): 1}
-        ctx.ob("R04.5", "doc id kinds", kinds == exp_kinds, "", "%s" % sorted((short(a), b, n) for (a, b), n in kinds.items()))
+        opt_kinds = {(RS + "start_invoke", "invoke"): 1}
+        okk = all(kinds.get(k) == v for k, v in exp_kinds.items()) and all(k in exp_kinds or opt_kinds.get(k) == v for k, v in kinds.items())
+        ctx.ob("R04.5", "doc id kinds", okk, "", "%s" % sorted((short(a), b, n) for (a, b), n in kinds.items()))
         # doc_id field writers
         for owner_ty in ("State", "Transition"):
             for fn, n, kind, meth, par in mutations_of_field(F, owner_ty, "doc_id"):
